@@ -1,5 +1,5 @@
 (* C02 — size accounting is exact.  Statements only; proofs are in A/InvA.v. *)
-Require Import LruV.A.InvA.
+Require Import LruV.A.InvA LruV.B.StepB LruV.B.ReachB.
 
 Theorem C02_sum : forall E VS, 0 < E -> VS <= E -> forall s, Reach E VS s ->
   cur s = sumN (map es (ents s)) /\ Forall (fun e => es e = kheap (ek e) + vheap (ev e) + E) (ents s) /\
@@ -11,6 +11,17 @@ Qed.
 
 Theorem C02_monitor_sound : forall E VS, 0 < E -> VS <= E -> forall s, Reach E VS s -> c02_mon E s = true.
 Proof. intros E VS HE HV s HR. apply (inv_c02_mon E VS HE HV). eapply reach_inv; eauto. Qed.
+
+(* at pointer level: in every reachable state of the heap-of-nodes model the counter is the sum of the sizes recorded in the
+   nodes linked from the seal, every recorded size is the estimate of the pair the node owns, the counter is zero exactly when
+   no node is linked, and no two linked nodes own the same key *)
+Theorem C02_pointer_level : forall E VS, 0 < E -> VS <= E -> forall b, ReachB E VS b ->
+  let l := absl (gh (bg b)) (glist (bg b)) in
+  bcur b = sumN (map es l) /\ Forall (fun e => es e = kheap (ek e) + vheap (ev e) + E) l /\
+  (bcur b = 0 <-> l = []) /\ NoDup (map (fun e => kid (ek e)) l).
+Proof.
+  intros E VS HE HV b HR. destruct (reachB_sound E VS HE HV b HR) as [_ HA]. exact (C02_sum E VS HE HV _ HA).
+Qed.
 
 (* non-vacuity: a reachable state with two entries of different sizes *)
 Example C02_reach_example :
@@ -32,6 +43,7 @@ Qed.
 
 Print Assumptions C02_sum.
 Print Assumptions C02_monitor_sound.
+Print Assumptions C02_pointer_level.
 Check C02_sum : forall E VS, 0 < E -> VS <= E -> forall s, Reach E VS s ->
   cur s = sumN (map es (ents s)) /\ Forall (fun e => es e = kheap (ek e) + vheap (ev e) + E) (ents s) /\
   (cur s = 0 <-> ents s = []) /\ NoDup (map (fun e => kid (ek e)) (ents s)).
